@@ -9,6 +9,8 @@ package mcp
 import (
 	"encoding/json"
 	"fmt"
+	"math"
+	"strconv"
 
 	"trpc.group/trpc-go/trpc-mcp-go/internal/errors"
 )
@@ -280,4 +282,16 @@ func parseRawMessageToError(raw *json.RawMessage) (*JSONRPCError, error) {
 		return nil, fmt.Errorf("failed to parse JSON-RPC error: %w", err)
 	}
 	return &errResp, nil
+}
+
+// requestIDKey renders a JSON-RPC id as the key under which a pending request is
+// looked up. Integer ids are written in plain decimal whatever Go type carries them:
+// encoding/json decodes numbers into float64, and "%v" of a float64 switches to
+// exponent notation from 1e+06 on, which no longer equals the "%v" of the integer
+// the id was sent as.
+func requestIDKey(id interface{}) string {
+	if f, ok := id.(float64); ok && f == math.Trunc(f) && math.Abs(f) < 1<<63 {
+		return strconv.FormatInt(int64(f), 10)
+	}
+	return fmt.Sprintf("%v", id)
 }
